@@ -1,7 +1,8 @@
 (* C03 property theorems: statements only, each closed by [exact] (or by evaluating a
    decidable obligation over the table REGENERATED from the source on every run). *)
 From Boltons Require Import Lib.Prelude Lib.C03_Syntax Lib.C03_Conc Model.C03_Model
-     Proofs.C03_Serial Proofs.C03_Covered Proofs.C03_Main Proofs.C03_Link1 Proofs.C03_Link2 Proofs.C03_Link4 Proofs.C03_Link3 Gen.C03_Gen.
+     Proofs.C03_Serial Proofs.C03_Covered Proofs.C03_Main Proofs.C03_Link1 Proofs.C03_Link2 Proofs.C03_Link4 Proofs.C03_Link3
+     Spec.C03_Spec Proofs.C03_SpecLink Proofs.C03_SpecLink2 Proofs.C03_SpecLink3 Gen.C03_Gen.
 
 (* (T) obligation over regenerated data: in the CURRENT source, self._lock is a
    threading.RLock and every statement of every C03 method of LRI and LRU that touches the
@@ -184,6 +185,38 @@ Example C03_link_inhabited :
 Proof.
   split; [apply stands_for_init|]. vm_compute. repeat split; reflexivity.
 Qed.
+
+(* ---- the property statement against C03's OWN reference (Spec/C03_Spec.v, what `holds` evaluates)
+   For every covered lock table, max_size >= 1, programs over all 15 operations (dict literals of
+   `c == {...}` with distinct keys), every schedule: there is ONE sequence of (thread, operation,
+   result) events that (1) restricted to each thread is exactly that thread's program, in order,
+   with the results that thread got, (2) the sequential reference cache accepts step by step
+   (r_accepts: popitem may return any present item), and (3) ends in the reference state that the
+   final dict and ring represent. *)
+Theorem C03_atomic_wrt_own_spec :
+  forall tb, table_covered tb = true ->
+  forall c, 1 <= cf_max c ->
+  forall progs : nat -> list op, (forall t, Forall wf_op (progs t)) ->
+  forall sh0 m0, stands_for c sh0 m0 ->
+  forall sched,
+    let s := conc_run tb c progs sh0 sched in
+    finished s ->
+    exists (tr : list event) mf,
+      (forall t, ops_of t tr = progs t)
+      /\ (forall t, results_of t tr = t_done (m_thr s t))
+      /\ spec_replay (rc_of c) (Boltons.Model.C02_Model.ring m0) tr = Some (Boltons.Model.C02_Model.ring mf)
+      /\ stands_for c (m_sh s) mf.
+Proof. exact atomic_wrt_c03_spec. Qed.
+Print Assumptions C03_atomic_wrt_own_spec.
+
+(* each atomic step of the model is accepted by that reference *)
+Theorem C03_step_accepted_by_own_spec :
+  forall tb c s m o, 1 <= cf_max c -> wf_op o -> stands_for c s m ->
+    let '(s', r) := run_op tb c s o in
+    exists m', stands_for c s' m'
+      /\ r_accepts (rc_of c) (Boltons.Model.C02_Model.ring m) o r = Some (Boltons.Model.C02_Model.ring m').
+Proof. exact op_accepted_by_c03_spec. Qed.
+Print Assumptions C03_step_accepted_by_own_spec.
 
 (* ---- the statistics counters are NOT covered (and the property does not name them) -----------
    LRI.get() increments soft_miss_count outside the lock (modelled as such: a read and a write of
